@@ -85,6 +85,7 @@ type State struct {
 	panicking bool
 	pendingForks []*State
 	mapWitness []mapWit
+	calleePkgs []string // packages whose code runs in the call being havocked (nil: unknown)
 }
 
 // mapWit: a map entry the path relied on (range step or lookup); used to give
@@ -269,6 +270,9 @@ func (st *State) heapGet(h *Heap, name string, s Sort) string {
 		return t
 	}
 	init := fmt.Sprintf("%s_e%d", name, h.epoch)
+	if strings.HasPrefix(name, "pf_") {
+		init = fmt.Sprintf("%s_e%d", name, h.pfEpoch[pfID(name)])
+	}
 	if strings.HasPrefix(name, "imm_") || strings.HasPrefix(name, "ghost_") {
 		init = name + "_e0" // immutable fields are never havocked: one initial array for all epochs
 	}
@@ -374,7 +378,9 @@ func (st *State) assumeWF(v Value) {
 			if tr := st.typedRef("ELEM", sl.Elem()); tr != "true" {
 				arr := app("select", st.elemsArr(st.heap, SRef), app("s_ref", v.Term))
 				el := app("select", arr, "tq_k")
-				st.assume(fmt.Sprintf("(forall ((tq_k (_ BitVec 64))) (! %s :pattern (%s)))", strings.ReplaceAll(tr, "ELEM", el), el))
+				// ... and every element is an object that already exists (so a later allocation cannot alias it)
+				body := and(strings.ReplaceAll(tr, "ELEM", el), app("<", app("rid", el), st.allocTop))
+				st.assume(fmt.Sprintf("(forall ((tq_k (_ BitVec 64))) (! %s :pattern (%s)))", body, el))
 			}
 		}
 	}
@@ -523,7 +529,26 @@ func (st *State) freshValue(prefix string, T types.Type) Value {
 func (st *State) havocAll(why string) {
 	st.res.note("heap havocked: " + why)
 	old := st.heap
-	st.heap = &Heap{m: map[string]string{}, sorts: map[string]Sort{}, epoch: st.heap.epoch + 1 + freshCtr.n}
+	st.heap = &Heap{m: map[string]string{}, sorts: map[string]Sort{}, epoch: st.heap.epoch + 1 + freshCtr.n, pfEpoch: map[int]int{}}
+	// package-private fields: only code that can reach the owning package can write them
+	pkgs := st.calleePkgs
+	st.calleePkgs = nil
+	for id, ep := range old.pfEpoch {
+		st.heap.pfEpoch[id] = ep
+	}
+	writable := map[int]bool{}
+	for id := range st.eng.privByID {
+		if pkgs == nil || st.eng.canWrite(id, pkgs) {
+			writable[id] = true
+			st.heap.pfEpoch[id] = st.heap.epoch
+		}
+	}
+	for k, v := range old.m {
+		if strings.HasPrefix(k, "pf_") && !writable[pfID(k)] {
+			st.heap.m[k] = v
+			st.heap.sorts[k] = old.sorts[k]
+		}
+	}
 	for k, v := range old.m {
 		// immutable fields are never havocked; ghost variables change only through
 		// contracts that name them (no code can touch them)
